@@ -88,3 +88,15 @@ META["C16"]["text"] += " 40% of the scenarios end with two saves 1-300 ms apart 
 META["C17"]["text"] += " Location hosts in applied configurations are mixed-case and probed as written."
 META["C18"]["text"] += " TestC18Admin runs half of its cases on stores whose delete takes 15 ms and purges keys while clients keep asking for them."
 META["C20"]["text"] += " Half of the stress traffic goes through a rewrite rule with two captures."
+# round 6
+META["C03"]["text"] += " A quarter of the generated upstream header sets carry the labels of another cache tier (X-Status, X-Cache, Via)."
+META["C04"]["text"] += " TestC04Store: small caches on a store; lifetime and Age keep counting from the original fetch across reloads."
+META["C06"]["text"] += " TestC06Store judges C08's kill/restart histories on real badger stores for C06 (URIs that are proper prefixes of others, keys longer than a badger key, a second cache on the same URLs)."
+META["C07"]["text"] += " Outcomes include upstream bodies that break off (the handler panics)."
+META["C08"]["text"] += " URIs differ only at their very end (keys 10-39 extend keys 1-3); a quarter of the scenarios have two keys sharing 65 100 bytes."
+META["C10"]["text"] += " TestC10StoreOpen: real back ends that cannot be used at all (badger directory impossible / a file / locked, unreachable redis)."
+META["C11"]["note"] += "; VerifOnEvicted chains to a callback pike itself installs"
+META["C13"]["text"] += " Filters that match the empty content type (.*, ^, json|) are part of the table."
+META["C14"]["text"] += " TestC14Server uses mixed-case host names."
+META["C16"]["text"] += " 20% of the scenarios end with a configuration without any server (listeners must go away, acknowledged or not)."
+META["C18"]["text"] += " Keys include 1.6 KB query strings."
